@@ -4,6 +4,7 @@ package main
 
 import (
 	"fmt"
+	"go/constant"
 	"go/token"
 	"go/types"
 	"sort"
@@ -86,44 +87,237 @@ func factEdges(fn *ssa.Function, f func(e Edge, fact Fact)) {
 	}
 }
 
-// reachable computes the blocks reachable from the entry when the edges for which cut returns true are removed.
-// When an If has both successors equal (degenerate) cutting is per edge index, so callers use cutEdges sets keyed by (from,to,idx).
-func reachable(fn *ssa.Function, cut map[Edge]bool) map[*ssa.BasicBlock]bool {
-	seen := map[*ssa.BasicBlock]bool{}
-	if len(fn.Blocks) == 0 {
-		return seen
+// ---------------------------------------------------------------------------------------------
+// The traversal engine shared by every reachability / must-pass query.  It walks (block, state) pairs, the state
+// being what is known about the nil-ness / truth of phi values along the edges taken so far (a phi whose incoming
+// operand on the edge is nil, a constant bool, or a freshly built non-nil value), plus what a branch on `x == nil`
+// establishes about a value that feeds some phi.  A branch whose condition is decided by the state is followed on
+// the feasible side only.  This is jump threading, not execution: it removes exactly the paths of the form
+// "r = <error>; break; … if r != nil" → false edge, which appear when a function with several returns is expanded
+// in place (normalise.go) or when code collects its outcome in a variable and tests it once.
+
+type psItem struct {
+	blk *ssa.BasicBlock
+	st  nilState
+}
+
+// phiFeeders: the values that occur as phi operands in fn (only for these is branch knowledge worth recording).
+var phiFeederMemo = map[*ssa.Function]map[ssa.Value]bool{}
+
+func phiFeeders(fn *ssa.Function) map[ssa.Value]bool {
+	if m, ok := phiFeederMemo[fn]; ok {
+		return m
 	}
-	work := []*ssa.BasicBlock{fn.Blocks[0]}
-	seen[fn.Blocks[0]] = true
-	for len(work) > 0 {
-		b := work[len(work)-1]
-		work = work[:len(work)-1]
-		for _, s := range b.Succs {
-			if cut[Edge{b, s}] || seen[s] {
-				continue
+	m := map[ssa.Value]bool{}
+	for _, b := range fn.Blocks {
+		for _, ins := range b.Instrs {
+			phi, ok := ins.(*ssa.Phi)
+			if !ok {
+				break
 			}
-			seen[s] = true
-			work = append(work, s)
+			m[phi] = true
+			for _, e := range phi.Edges {
+				for {
+					m[e] = true
+					switch x := e.(type) {
+					case *ssa.ChangeInterface:
+						e = x.X
+						continue
+					case *ssa.MakeInterface:
+						e = x.X
+						continue
+					}
+					break
+				}
+			}
 		}
 	}
-	return seen
+	phiFeederMemo[fn] = m
+	return m
+}
+
+// enterBlock evaluates the phis of succ for the edge pred→succ.
+func enterBlock(pred, succ *ssa.BasicBlock, st nilState) nilState {
+	ns := nilState{}
+	for k, v := range st {
+		ns[k] = v
+	}
+	idx := -1
+	for i, p := range succ.Preds {
+		if p == pred {
+			idx = i
+			break
+		}
+	}
+	for _, ins := range succ.Instrs {
+		phi, ok := ins.(*ssa.Phi)
+		if !ok {
+			break
+		}
+		delete(ns, phi)
+		if idx >= 0 && idx < len(phi.Edges) {
+			if n := st.of(phi.Edges[idx]); n != 0 {
+				ns[phi] = n
+			}
+		}
+	}
+	return ns
+}
+
+// feasibleSuccs lists the successors of blk that the state allows, with the state refined by the branch taken.
+// refineAll: record branch knowledge about every tested value (otherwise only about values that feed a phi).
+func feasibleSuccs(blk *ssa.BasicBlock, st nilState, refineAll bool) []psItem {
+	all := func() []psItem {
+		out := make([]psItem, 0, len(blk.Succs))
+		for _, s := range blk.Succs {
+			out = append(out, psItem{s, st})
+		}
+		return out
+	}
+	if len(blk.Instrs) == 0 {
+		return nil
+	}
+	iff, ok := blk.Instrs[len(blk.Instrs)-1].(*ssa.If)
+	if !ok || len(blk.Succs) != 2 {
+		return all()
+	}
+	cond := iff.Cond
+	neg := false
+	for {
+		if u, ok := cond.(*ssa.UnOp); ok && u.Op == token.NOT {
+			cond, neg = u.X, !neg
+			continue
+		}
+		break
+	}
+	pick := func(t bool) []psItem {
+		if t != neg {
+			return []psItem{{blk.Succs[0], st}}
+		}
+		return []psItem{{blk.Succs[1], st}}
+	}
+	// the condition itself is a known boolean (constant, or a phi of constants)
+	if n := st.of(cond); n != 0 {
+		if _, isBool := cond.Type().Underlying().(*types.Basic); isBool {
+			return pick(n == 2)
+		}
+	}
+	with := func(x ssa.Value, n int8) nilState {
+		ns := nilState{}
+		for k, v := range st {
+			ns[k] = v
+		}
+		ns[x] = n
+		return ns
+	}
+	worth := func(x ssa.Value) bool {
+		return refineAll || phiFeeders(blk.Parent())[x]
+	}
+	if b, ok := cond.(*ssa.BinOp); ok && (b.Op == token.EQL || b.Op == token.NEQ) {
+		var x ssa.Value
+		if isNilConst(b.Y) {
+			x = b.X
+		} else if isNilConst(b.X) {
+			x = b.Y
+		}
+		if x != nil {
+			isNilOnTrue := (b.Op == token.EQL) != neg
+			switch st.of(x) {
+			case 1:
+				if isNilOnTrue {
+					return []psItem{{blk.Succs[0], st}}
+				}
+				return []psItem{{blk.Succs[1], st}}
+			case 2:
+				if isNilOnTrue {
+					return []psItem{{blk.Succs[1], st}}
+				}
+				return []psItem{{blk.Succs[0], st}}
+			}
+			if !worth(x) {
+				return all()
+			}
+			if isNilOnTrue {
+				return []psItem{{blk.Succs[0], with(x, 1)}, {blk.Succs[1], with(x, 2)}}
+			}
+			return []psItem{{blk.Succs[0], with(x, 2)}, {blk.Succs[1], with(x, 1)}}
+		}
+	}
+	// a bool value that feeds a phi (flag variables): record what the branch says about it
+	if _, isBool := cond.Type().Underlying().(*types.Basic); isBool && worth(cond) {
+		if _, isConst := cond.(*ssa.Const); !isConst {
+			t, f := int8(2), int8(1)
+			if neg {
+				t, f = f, t
+			}
+			return []psItem{{blk.Succs[0], with(cond, t)}, {blk.Succs[1], with(cond, f)}}
+		}
+	}
+	return all()
+}
+
+// explore walks the (block, state) pairs reachable from the given items without using cut edges.  visit is called
+// once per pair before its successors are considered and returns false to stop below that pair.
+func explore(start []psItem, cut map[Edge]bool, refineAll bool, visit func(b *ssa.BasicBlock, st nilState) bool) {
+	seen := map[string]bool{}
+	work := append([]psItem(nil), start...)
+	plain := false
+	for len(work) > 0 {
+		it := work[len(work)-1]
+		work = work[:len(work)-1]
+		var k string
+		if plain {
+			k = fmt.Sprint(it.blk.Index)
+			it.st = nilState{}
+		} else {
+			k = fmt.Sprintf("%d|%s", it.blk.Index, it.st.key())
+		}
+		if seen[k] {
+			continue
+		}
+		seen[k] = true
+		if len(seen) > 20000 && !plain {
+			plain = true // give up path sensitivity: plain CFG traversal from here on (over-approximation)
+		}
+		if !visit(it.blk, it.st) {
+			continue
+		}
+		var next []psItem
+		if plain {
+			for _, s := range it.blk.Succs {
+				next = append(next, psItem{s, nilState{}})
+			}
+		} else {
+			next = feasibleSuccs(it.blk, it.st, refineAll)
+		}
+		for _, n := range next {
+			if cut[Edge{it.blk, n.blk}] {
+				continue
+			}
+			st := n.st
+			if !plain {
+				st = enterBlock(it.blk, n.blk, n.st)
+			}
+			work = append(work, psItem{n.blk, st})
+		}
+	}
+}
+
+// reachable computes the blocks reachable from the entry when the cut edges are removed.
+func reachable(fn *ssa.Function, cut map[Edge]bool) map[*ssa.BasicBlock]bool {
+	if len(fn.Blocks) == 0 {
+		return map[*ssa.BasicBlock]bool{}
+	}
+	return reachableFrom(fn.Blocks[0], cut)
 }
 
 // reachableFrom computes blocks reachable from start (inclusive) with edges cut.
 func reachableFrom(start *ssa.BasicBlock, cut map[Edge]bool) map[*ssa.BasicBlock]bool {
-	seen := map[*ssa.BasicBlock]bool{start: true}
-	work := []*ssa.BasicBlock{start}
-	for len(work) > 0 {
-		b := work[len(work)-1]
-		work = work[:len(work)-1]
-		for _, s := range b.Succs {
-			if cut[Edge{b, s}] || seen[s] {
-				continue
-			}
-			seen[s] = true
-			work = append(work, s)
-		}
-	}
+	seen := map[*ssa.BasicBlock]bool{}
+	explore([]psItem{{start, nilState{}}}, cut, false, func(b *ssa.BasicBlock, _ nilState) bool {
+		seen[b] = true
+		return true
+	})
 	return seen
 }
 
@@ -132,30 +326,33 @@ func pathTo(fn *ssa.Function, target *ssa.BasicBlock, cut map[Edge]bool) []*ssa.
 	if len(fn.Blocks) == 0 {
 		return nil
 	}
-	prev := map[*ssa.BasicBlock]*ssa.BasicBlock{}
+	type node struct {
+		it   psItem
+		prev *node
+	}
 	entry := fn.Blocks[0]
-	seen := map[*ssa.BasicBlock]bool{entry: true}
-	work := []*ssa.BasicBlock{entry}
+	seen := map[string]bool{}
+	work := []*node{{psItem{entry, nilState{}}, nil}}
 	for len(work) > 0 {
-		b := work[0]
+		n := work[0]
 		work = work[1:]
-		if b == target {
+		k := fmt.Sprintf("%d|%s", n.it.blk.Index, n.it.st.key())
+		if seen[k] || len(seen) > 20000 {
+			continue
+		}
+		seen[k] = true
+		if n.it.blk == target {
 			var p []*ssa.BasicBlock
-			for x := b; x != nil; x = prev[x] {
-				p = append([]*ssa.BasicBlock{x}, p...)
-				if x == entry {
-					break
-				}
+			for x := n; x != nil; x = x.prev {
+				p = append([]*ssa.BasicBlock{x.it.blk}, p...)
 			}
 			return p
 		}
-		for _, s := range b.Succs {
-			if cut[Edge{b, s}] || seen[s] {
+		for _, s := range feasibleSuccs(n.it.blk, n.it.st, false) {
+			if cut[Edge{n.it.blk, s.blk}] {
 				continue
 			}
-			seen[s] = true
-			prev[s] = b
-			work = append(work, s)
+			work = append(work, &node{psItem{s.blk, enterBlock(n.it.blk, s.blk, s.st)}, n})
 		}
 	}
 	return nil
@@ -212,74 +409,65 @@ func edgeDominates(fn *ssa.Function, e Edge, t *ssa.BasicBlock) bool {
 // mustPassAfter: every path from just after `from` to a normal Return executes an instruction matching through.
 // Returns a witness return position when it fails.
 func mustPassAfter(from ssa.Instruction, through func(ssa.Instruction) bool) (bool, ssa.Instruction) {
-	type st struct {
-		b   *ssa.BasicBlock
-		idx int
+	fb := from.Block()
+	for i := instrIndex(from) + 1; i < len(fb.Instrs); i++ {
+		ins := fb.Instrs[i]
+		if through(ins) {
+			return true, nil
+		}
+		if r, ok := ins.(*ssa.Return); ok {
+			return false, r
+		}
 	}
-	seen := map[*ssa.BasicBlock]bool{}
-	work := []st{{from.Block(), instrIndex(from) + 1}}
-	for len(work) > 0 {
-		s := work[len(work)-1]
-		work = work[:len(work)-1]
-		stopped := false
-		for i := s.idx; i < len(s.b.Instrs); i++ {
-			ins := s.b.Instrs[i]
+	var start []psItem
+	for _, s := range feasibleSuccs(fb, nilState{}, false) {
+		start = append(start, psItem{s.blk, enterBlock(fb, s.blk, s.st)})
+	}
+	return mustPassItems(start, through)
+}
+
+func mustPassItems(start []psItem, through func(ssa.Instruction) bool) (bool, ssa.Instruction) {
+	var witness ssa.Instruction
+	explore(start, nil, false, func(b *ssa.BasicBlock, _ nilState) bool {
+		if witness != nil {
+			return false
+		}
+		for _, ins := range b.Instrs {
 			if through(ins) {
-				stopped = true
-				break
+				return false
 			}
 			if r, ok := ins.(*ssa.Return); ok {
-				return false, r
+				witness = r
+				return false
 			}
 		}
-		if stopped {
-			continue
-		}
-		for _, n := range s.b.Succs {
-			if !seen[n] {
-				seen[n] = true
-				work = append(work, st{n, 0})
-			}
-		}
-	}
-	return true, nil
+		return true
+	})
+	return witness == nil, witness
 }
 
 // mustPassBefore: every path from entry to `to` executes an instruction matching through before reaching `to`.
 func mustPassBefore(fn *ssa.Function, to ssa.Instruction, through func(ssa.Instruction) bool) bool {
-	type st struct {
-		b   *ssa.BasicBlock
-		idx int
-	}
 	if len(fn.Blocks) == 0 {
 		return true
 	}
-	seen := map[*ssa.BasicBlock]bool{fn.Blocks[0]: true}
-	work := []*ssa.BasicBlock{fn.Blocks[0]}
-	for len(work) > 0 {
-		b := work[len(work)-1]
-		work = work[:len(work)-1]
-		stopped := false
+	ok := true
+	explore([]psItem{{fn.Blocks[0], nilState{}}}, nil, false, func(b *ssa.BasicBlock, _ nilState) bool {
+		if !ok {
+			return false
+		}
 		for _, ins := range b.Instrs {
 			if ins == to {
+				ok = false
 				return false
 			}
 			if through(ins) {
-				stopped = true
-				break
+				return false
 			}
 		}
-		if stopped {
-			continue
-		}
-		for _, n := range b.Succs {
-			if !seen[n] {
-				seen[n] = true
-				work = append(work, n)
-			}
-		}
-	}
-	return true
+		return true
+	})
+	return ok
 }
 
 // returnsOf lists the Return instructions of fn.
@@ -322,32 +510,7 @@ func callValue(v ssa.Value) *ssa.Call {
 
 // mustPassFromBlock: every path from the start of block b to a normal Return executes an instruction matching through.
 func mustPassFromBlock(b *ssa.BasicBlock, through func(ssa.Instruction) bool) (bool, ssa.Instruction) {
-	seen := map[*ssa.BasicBlock]bool{b: true}
-	work := []*ssa.BasicBlock{b}
-	for len(work) > 0 {
-		cur := work[len(work)-1]
-		work = work[:len(work)-1]
-		stopped := false
-		for _, ins := range cur.Instrs {
-			if through(ins) {
-				stopped = true
-				break
-			}
-			if r, ok := ins.(*ssa.Return); ok {
-				return false, r
-			}
-		}
-		if stopped {
-			continue
-		}
-		for _, n := range cur.Succs {
-			if !seen[n] {
-				seen[n] = true
-				work = append(work, n)
-			}
-		}
-	}
-	return true, nil
+	return mustPassItems([]psItem{{b, nilState{}}}, through)
 }
 
 // ---------------------------------------------------------------------------------------------
@@ -376,6 +539,12 @@ func (s nilState) of(v ssa.Value) int8 {
 		if n, ok := s[v]; ok {
 			return n
 		}
+		if c, ok := v.(*ssa.Const); ok && c.Value != nil && c.Value.Kind() == constant.Bool {
+			if constant.BoolVal(c.Value) {
+				return 2
+			}
+			return 1
+		}
 		switch x := v.(type) {
 		case *ssa.ChangeInterface:
 			v = x.X
@@ -384,8 +553,12 @@ func (s nilState) of(v ssa.Value) int8 {
 			return 2
 		case *ssa.Call:
 			switch calleeName(&x.Call) {
-			case "fmt.Errorf", "errors.New":
+			case "fmt.Errorf", "errors.New", "(*hotline.ClientConn).NewErrReply", "builtin.append":
 				return 2
+			}
+		case *ssa.Slice:
+			if _, isArr := x.X.Type().Underlying().(*types.Pointer); isArr {
+				return 2 // slice of an addressable array
 			}
 		}
 		return 0
@@ -407,135 +580,18 @@ func nilReachVisit(start ssa.Instruction, assume map[ssa.Value]bool, visit func(
 			init[v] = 2
 		}
 	}
-	type item struct {
-		blk *ssa.BasicBlock
-		st  nilState
+	sb := start.Block()
+	var first []psItem
+	for _, s := range feasibleSuccs(sb, init, true) {
+		first = append(first, psItem{s.blk, enterBlock(sb, s.blk, s.st)})
 	}
-	seen := map[string]bool{}
-	var work []item
-	enter := func(succ, pred *ssa.BasicBlock, st nilState) {
-		ns := nilState{}
-		for k, v := range st {
-			ns[k] = v
-		}
-		idx := -1
-		for i, p := range succ.Preds {
-			if p == pred {
-				idx = i
-				break
-			}
-		}
-		for _, ins := range succ.Instrs {
-			phi, ok := ins.(*ssa.Phi)
-			if !ok {
-				break
-			}
-			delete(ns, phi)
-			if idx >= 0 && idx < len(phi.Edges) {
-				if n := st.of(phi.Edges[idx]); n != 0 {
-					ns[phi] = n
-				}
-			}
-		}
-		reached[succ] = true
-		k := fmt.Sprintf("%d|%s", succ.Index, ns.key())
-		if seen[k] || len(seen) > 20000 {
-			if len(seen) > 20000 {
-				// give up precisely: everything reachable in the plain CFG counts as reachable
-				for b := range reachableFrom(succ, nil) {
-					reached[b] = true
-				}
-			}
-			return
-		}
-		seen[k] = true
+	explore(first, nil, true, func(b *ssa.BasicBlock, st nilState) bool {
+		reached[b] = true
 		if visit != nil {
-			visit(succ, ns)
+			visit(b, st)
 		}
-		work = append(work, item{succ, ns})
-	}
-	step := func(blk *ssa.BasicBlock, st nilState) {
-		if len(blk.Instrs) == 0 {
-			return
-		}
-		iff, ok := blk.Instrs[len(blk.Instrs)-1].(*ssa.If)
-		if !ok {
-			for _, s := range blk.Succs {
-				enter(s, blk, st)
-			}
-			return
-		}
-		cond := iff.Cond
-		neg := false
-		for {
-			if u, ok := cond.(*ssa.UnOp); ok && u.Op == token.NOT {
-				cond, neg = u.X, !neg
-				continue
-			}
-			break
-		}
-		if c, ok := cond.(*ssa.Const); ok && c.Value != nil {
-			t := (c.Value.String() == "true") != neg
-			if t {
-				enter(blk.Succs[0], blk, st)
-			} else {
-				enter(blk.Succs[1], blk, st)
-			}
-			return
-		}
-		if b, ok := cond.(*ssa.BinOp); ok && (b.Op == token.EQL || b.Op == token.NEQ) {
-			var x ssa.Value
-			if isNilConst(b.Y) {
-				x = b.X
-			} else if isNilConst(b.X) {
-				x = b.Y
-			}
-			if x != nil {
-				eq := (b.Op == token.EQL) != neg // true branch means "x is nil"?
-				switch st.of(x) {
-				case 1:
-					if eq {
-						enter(blk.Succs[0], blk, st)
-					} else {
-						enter(blk.Succs[1], blk, st)
-					}
-					return
-				case 2:
-					if eq {
-						enter(blk.Succs[1], blk, st)
-					} else {
-						enter(blk.Succs[0], blk, st)
-					}
-					return
-				}
-				with := func(n int8) nilState {
-					ns := nilState{}
-					for k, v := range st {
-						ns[k] = v
-					}
-					ns[x] = n
-					return ns
-				}
-				if eq {
-					enter(blk.Succs[0], blk, with(1))
-					enter(blk.Succs[1], blk, with(2))
-				} else {
-					enter(blk.Succs[0], blk, with(2))
-					enter(blk.Succs[1], blk, with(1))
-				}
-				return
-			}
-		}
-		for _, s := range blk.Succs {
-			enter(s, blk, st)
-		}
-	}
-	step(start.Block(), init)
-	for len(work) > 0 {
-		it := work[len(work)-1]
-		work = work[:len(work)-1]
-		step(it.blk, it.st)
-	}
+		return true
+	})
 	return reached
 }
 
@@ -560,4 +616,64 @@ func errResult(c *ssa.Call) ssa.Value {
 		}
 	}
 	return nil
+}
+
+// inLoop: the block lies on a CFG cycle.
+func inLoop(b *ssa.BasicBlock) bool {
+	for _, s := range b.Succs {
+		if s == b || reachableFrom(s, nil)[b] {
+			return true
+		}
+	}
+	return false
+}
+
+// successMustPass: on every path from the entry to a return that may report success (error result nil or not known
+// to be non-nil along that path) an instruction matching through is executed first.  nSuccess counts the returns
+// that can report success on some path.  The recover block is not an entry.
+func successMustPass(fn *ssa.Function, through func(ssa.Instruction) bool) (ok bool, witness *ssa.Return, nSuccess int) {
+	ok = true
+	if len(fn.Blocks) == 0 {
+		return
+	}
+	succ := map[*ssa.Return]bool{}
+	judge := func(ret *ssa.Return, st nilState) bool { // may this return report success in state st?
+		n := len(ret.Results)
+		if n == 0 || !isErrorType(ret.Results[n-1].Type()) {
+			return true
+		}
+		if st.of(ret.Results[n-1]) == 2 {
+			return false
+		}
+		if rv := retValue(ret, n-1); rv != ret.Results[n-1] && st.of(rv) == 2 {
+			return false
+		}
+		return true
+	}
+	// first pass: which returns can report success at all
+	explore([]psItem{{fn.Blocks[0], nilState{}}}, nil, true, func(b *ssa.BasicBlock, st nilState) bool {
+		if ret, isRet := b.Instrs[len(b.Instrs)-1].(*ssa.Return); isRet && judge(ret, st) {
+			succ[ret] = true
+		}
+		return true
+	})
+	nSuccess = len(succ)
+	explore([]psItem{{fn.Blocks[0], nilState{}}}, nil, true, func(b *ssa.BasicBlock, st nilState) bool {
+		for _, ins := range b.Instrs {
+			if through(ins) {
+				return false
+			}
+			if ret, isRet := ins.(*ssa.Return); isRet {
+				if judge(ret, st) {
+					ok = false
+					if witness == nil {
+						witness = ret
+					}
+				}
+				return false
+			}
+		}
+		return true
+	})
+	return
 }
